@@ -1,7 +1,126 @@
-From Coq Require Import ZArith NArith List Bool QArith.
-From IRV Require Import Base.Exn Gen.C16Gen C16.Model.
+(* C16/Property.v — symbolic dimensions compute, print and re-parse with integer semantics.
+   ONLY the property theorems (proofs in ProofsEval.v, ProofsParser.v, ProofsParser2.v, ProofsLexer.v), each
+   followed by Print Assumptions.  The model (C16/Model.v) is the tokenizer + recursive-descent parser of
+   onnx_ir/_symbolic_shapes.py and the constructor trees the SymbolicDim operators ask SymPy to build; the
+   function table and the operator sets come from Gen/C16Gen.v, regenerated from the source on every run. *)
+From Coq Require Import ZArith NArith List Bool QArith Qround.
+From IRV Require Import Base.Exn Gen.C16Gen C16.Model C16.ProofsEval C16.ProofsParser C16.ProofsParser2 C16.ProofsLexer.
 Import ListNotations.
 
-Theorem C16_placeholder : parse_dim [45;78;42;42;50]%N = Some (ENeg (EBin BPow (ESym [78%N]) (EInt 2))).
+(* The operator sets of every precedence level, the shape of the descent (which _parse_* calls which), the
+   tokenizer's character tests and the assumptions put on symbols, as read from the source text now, are the
+   ones the model implements. *)
+Theorem C16_tables_current : tables_ok = true /\ descent_ok = true.
+Proof. exact tables_current. Qed.
+Print Assumptions C16_tables_current.
+
+(* Every function name the printed forms use (floor, ceiling, Abs, sign, sqrt, Mod, Max, Min) is in
+   _ALLOWED_FUNCTIONS with the right meaning, and every entry of the table is a constructor of the model. *)
+Theorem C16_function_table_covers :
+  (forall f, lookup_fn (fn1_name f) = Some (K1 f)) /\
+  lookup_fn n_Mod = Some KMod /\ lookup_fn n_Max = Some KMax /\ lookup_fn n_Min = Some KMin /\
+  forallb (fun kv => is_some (sympy_fn (snd kv))) allowed_functions = true.
+Proof. exact function_table_covers. Qed.
+Print Assumptions C16_function_table_covers.
+
+(* The parser accepts exactly the token strings of the documented grammar and gives each the tree of the
+   standard reading: '+ -' and '* / // %' left-associative, '**' right-associative and binding tighter than
+   unary minus, `//` = floor of the quotient, `%` = Mod, functions from the table. *)
+Theorem C16_parser_sound_complete :
+  forall ts e, parse_tokens ts = Some e <-> derives_ref ts e.
+Proof. exact parser_sound_complete. Qed.
+Print Assumptions C16_parser_sound_complete.
+
+Example C16_ex_neg_pow :   (* -N**2 is -(N**2) *)
+  parse_dim [45; 78; 42; 42; 50]%N = Some (ENeg (EBin BPow (ESym [78%N]) (EInt 2))).
 Proof. vm_compute. reflexivity. Qed.
-Print Assumptions C16_placeholder.
+Example C16_ex_left_assoc :   (* N - M - K is (N - M) - K ;  N // M * K is (N // M) * K *)
+  parse_dim [78; 45; 77; 45; 75]%N = Some (EBin BSub (EBin BSub (ESym [78%N]) (ESym [77%N])) (ESym [75%N])) /\
+  parse_dim [78; 47; 47; 77; 42; 75]%N = Some (EBin BMul (EFloorDiv (ESym [78%N]) (ESym [77%N])) (ESym [75%N])).
+Proof. split; vm_compute; reflexivity. Qed.
+Example C16_ex_pow_right_assoc :   (* 2**3**2 is 2**(3**2) ; 2**-1 *)
+  parse_dim [50; 42; 42; 51; 42; 42; 50]%N = Some (EBin BPow (EInt 2) (EBin BPow (EInt 3) (EInt 2))) /\
+  parse_dim [50; 42; 42; 45; 49]%N = Some (EBin BPow (EInt 2) (ENeg (EInt 1))).
+Proof. split; vm_compute; reflexivity. Qed.
+
+(* The reference grammar has one tree per token string. *)
+Theorem C16_reference_unambiguous :
+  forall ts e1 e2, derives_ref ts e1 -> derives_ref ts e2 -> e1 = e2.
+Proof. exact derives_ref_deterministic. Qed.
+Print Assumptions C16_reference_unambiguous.
+
+(* The iteration reading `x (op x)*` folded to the left is the textbook left-recursive grammar. *)
+Theorem C16_reference_is_left_recursive :
+  forall ts e, d_term ts e <-> lr_term ts e.
+Proof. exact term_lr_iff. Qed.
+Print Assumptions C16_reference_is_left_recursive.
+
+(* The parser always terminates with a tree or a rejection: the fuel `number of tokens + 1` that
+   parse_tokens gives it is never exhausted (so None means "raises"). *)
+Theorem C16_parser_total : forall ts, parse_fuel (S (length ts)) ts <> PFuel.
+Proof. exact parser_total. Qed.
+Print Assumptions C16_parser_total.
+
+(* Partial bindings: substituting sigma1 and later evaluating under sigma2 is evaluating under both. *)
+Theorem C16_partial_consistent :
+  forall s1 s2 e, eval s2 (subst s1 e) = eval (s1 ++ s2) e.
+Proof. exact partial_consistent. Qed.
+Print Assumptions C16_partial_consistent.
+
+Example C16_ex_partial :   (* (N + M) // 2 with N := 7 first, then M := 4 *)
+  let e := EFloorDiv (EBin BAdd (ESym [78%N]) (ESym [77%N])) (EInt 2) in
+  subst [([78%N], 7%Z)] e = EFloorDiv (EBin BAdd (EInt 7) (ESym [77%N])) (EInt 2) /\
+  eval_int [([77%N], 4%Z)] (subst [([78%N], 7%Z)] e) = Some 5%Z.
+Proof. split; vm_compute; reflexivity. Qed.
+
+(* Integer semantics: on integer operands the trees built for //, %, ceil, trunc, min, max, +, -, *, neg
+   evaluate to Python's integer results (floor division and modulo with the sign of the divisor; trunc toward
+   zero as sign(x) * floor|x|; ceil x = -floor(-x)); floor and ceiling of any exact value are Qfloor / -Qfloor(-x). *)
+Theorem C16_eval_integer :
+  forall s a b x y, isZ (eval s a) x -> isZ (eval s b) y ->
+    isZ (eval s (EBin BAdd a b)) (x + y) /\ isZ (eval s (EBin BSub a b)) (x - y) /\
+    isZ (eval s (EBin BMul a b)) (x * y) /\ isZ (eval s (ENeg a)) (- x) /\
+    isZ (eval s (EBin BMax a b)) (Z.max x y) /\ isZ (eval s (EBin BMin a b)) (Z.min x y) /\
+    isZ (eval s (EUn FFloor a)) x /\ isZ (eval s (EUn FCeil a)) x /\
+    (y <> 0%Z ->
+       isZ (eval s (EFloorDiv a b)) (x / y) /\ isZ (eval s (EBin BMod a b)) (x mod y) /\
+       isZ (eval s (EUn FCeil (EBin BDiv a b))) (- ((- x) / y)) /\
+       isZ (eval s (ETrunc (EBin BDiv a b))) (Z.quot x y)).
+Proof.
+  intros s a b x y Ha Hb. repeat split;
+    eauto using isZ_add, isZ_sub, isZ_mul, isZ_neg, isZ_max, isZ_min, isZ_round_id,
+                isZ_floordiv, isZ_mod, isZ_ceildiv, isZ_truncdiv.
+Qed.
+Print Assumptions C16_eval_integer.
+
+Theorem C16_eval_rounding :
+  forall s e q, eval s e = Some q ->
+    eval s (EUn FFloor e) = Some (inject_Z (Qfloor q)) /\
+    eval s (EUn FCeil e) = Some (inject_Z (- Qfloor (- q))) /\
+    exists r, eval s (ETrunc e) = Some r /\ r == inject_Z (Z.sgn (Qnum q) * Qfloor (Qabs.Qabs q)).
+Proof.
+  intros s e q H. split; [apply eval_floor; exact H|]. split; [apply eval_ceil; exact H|].
+  apply eval_trunc. exact H.
+Qed.
+Print Assumptions C16_eval_rounding.
+
+Example C16_ex_integer :   (* -7 // 2 = -4, -7 % 2 = 1, 7 % -2 = -1, trunc(-7/2) = -3, ceil(7/2) = 4 *)
+  eval_int [] (EFloorDiv (EInt (-7)) (EInt 2)) = Some (-4)%Z /\
+  eval_int [] (EBin BMod (EInt (-7)) (EInt 2)) = Some 1%Z /\
+  eval_int [] (EBin BMod (EInt 7) (EInt (-2))) = Some (-1)%Z /\
+  eval_int [] (ETrunc (EBin BDiv (EInt (-7)) (EInt 2))) = Some (-3)%Z /\
+  eval_int [] (EUn FCeil (EBin BDiv (EInt 7) (EInt 2))) = Some 4%Z.
+Proof. repeat split; vm_compute; reflexivity. Qed.
+
+(* Print -> parse: the text the model printer writes for a tree (fully parenthesised, SymPy's function
+   names) is tokenized and parsed back to a tree with the same value under EVERY binding. *)
+Theorem C16_print_parse :
+  forall e, idents_ok e = true ->
+    exists e', parse_dim (pr e) = Some e' /\ forall s, eval s e' = eval s e.
+Proof. exact print_parse. Qed.
+Print Assumptions C16_print_parse.
+
+Example C16_ex_print_parse :   (* ceil(N/2) and trunc((N - M)/2): the two forms that could not be read back *)
+  parse_dim (pr (EUn FCeil (EBin BDiv (ESym [78%N]) (EInt 2)))) = Some (EUn FCeil (EBin BDiv (ESym [78%N]) (EInt 2))) /\
+  let t := ETrunc (EBin BDiv (EBin BSub (ESym [78%N]) (ESym [77%N])) (EInt 2)) in parse_dim (pr t) = Some t.
+Proof. split; vm_compute; reflexivity. Qed.
